@@ -500,3 +500,103 @@ Example md_layout_example :
   [37; 0; 21; 147; 1; 2; 255; 255; 255; 255; 255; 255; 7; 67; 0; 0; 0; 1; 0; 0; 0; 0;
    3; 97; 195; 164; 0; 2; 2; 7; 8; 5; 0].
 Proof. vm_compute. reflexivity. Qed.
+
+(* ================= C10: totality, fuel, prefix rejection; C04 ================= *)
+
+Lemma md_opt_loop_total fuel : forall raw idx acc,
+  0 <= idx < len raw -> (Z.to_nat (len raw - idx) <= fuel)%nat ->
+  ok_or_documented (md_opt_loop fuel raw idx acc).
+Proof.
+  induction fuel as [|fuel IH]; intros raw idx acc Hi Hf; [lia|].
+  cbn [md_opt_loop]. pose proof (tlv_unpack_total (slice_from raw idx)) as T.
+  destruct (tlv_unpack (slice_from raw idx)) as [t|e]; [|exact T]. cbn [bind].
+  pose proof (tlv_packet_len_pos t).
+  destruct (idx + tlv_packet_len t >? len raw) eqn:G1; [reflexivity|].
+  destruct (idx + tlv_packet_len t =? len raw) eqn:G2; [exact I|]. apply IH; lia.
+Qed.
+
+Corollary md_opt_loop_fuel_ok raw idx acc : 0 <= idx < len raw ->
+  md_opt_loop (S (length raw)) raw idx acc <> Err EFuel.
+Proof.
+  intros H. pose proof (md_opt_loop_total (S (length raw)) raw idx acc H ltac:(unfold len; lia)) as T.
+  intros E. rewrite E in T. discriminate T.
+Qed.
+
+Theorem md_unpack_total d : wf_bytes d -> ok_or_documented (md_unpack d).
+Proof.
+  intros W. unfold md_unpack. destruct md_empty_ok as (e0 & -> & _). cbn [bind].
+  pose proof (fdir_unpack_total d W) as T.
+  destruct (fdir_unpack d) as [f|e] eqn:U; [|exact T]. clear T. cbn [bind].
+  destruct (fdir_unpack_inv d f W U) as (FV & _ & Lhl & _).
+  destruct (hdr_valid_packet_len _ (proj1 FV)) as (Hh & Hp).
+  assert (P2 : 2 <= hdr_packet_len (fd_hdr f)) by lia.
+  assert (Fl : flag (cf_large (h_conf (fd_hdr f)))) by apply FV.
+  destruct (hdr_verify_length_and_checksum (fd_hdr f) d) as [pl|e] eqn:Ve.
+  2:{ destruct (hdr_verify_err _ _ _ P2 Ve) as [-> | ->]; reflexivity. }
+  destruct (hdr_verify_accept _ _ _ P2 Ve) as (-> & Lpl & _). cbn [bind].
+  unfold md_with_fdir, md_packet_len, fdir_packet_len. cbn [md_fdir md_options].
+  set (e := if cf_crc (h_conf (fd_hdr f)) =? CRC_WITH_CRC then hdr_packet_len (fd_hdr f) - 2 else hdr_packet_len (fd_hdr f)).
+  assert (Le : e <= len d) by (unfold e; destruct (_ =? _); lia).
+  pose proof (fdir_header_len_range f FV) as Rh.
+  destruct (e <? _) eqn:G; [reflexivity|].
+  assert (G' : fdir_header_len f + 7 <= e) by (destruct (cf_large (h_conf (fd_hdr f)) =? FILE_LARGE); lia).
+  destruct (py_get_in_range d (fdir_header_len f) ltac:(lia)) as (b & ->). cbn [bind].
+  unfold checksum_type_of_int. destruct (is_checksum_type _); [|reflexivity]. cbn [bind].
+  rewrite fdir_parse_fss_spec by (try exact Fl; lia). cbv zeta.
+  destruct (_ >? len d); [reflexivity|]. cbn [bind].
+  apply bind_documented; [apply lv_unpack_total|]. intros s _.
+  apply bind_documented; [apply lv_unpack_total|]. intros dd _.
+  set (i := fdir_header_len f + 1 + Z.of_nat (fss_n (h_conf (fd_hdr f))) + lv_packet_len s + lv_packet_len dd).
+  destruct (i <? e) eqn:G3; [|exact I].
+  apply bind_documented; [|intros; exact I].
+  apply bind_documented; [|intros; exact I].
+  assert (Li : 0 <= i).
+  { unfold i, lv_packet_len. pose proof (len_nonneg s). pose proof (len_nonneg dd). lia. }
+  assert (Lraw : len (slice_to d e) = e).
+  { unfold slice_to, len. rewrite firstn_length. unfold len in Le. lia. }
+  apply md_opt_loop_total; [rewrite Lraw; lia|]. unfold len. lia.
+Qed.
+
+Theorem md_prefix_rejected c q o n : md_valid c q o -> (n < length (md_layout c q o))%nat ->
+  exists e, md_unpack (firstn n (md_layout c q o)) = Err e /\ documented e = true.
+Proof.
+  intros V L.
+  assert (WL : wf_bytes (md_layout c q o)).
+  { unfold md_layout. rewrite with_crc_split. apply wf_bytes_app. split; [apply md_pre_wf; exact V|apply crc_tail_wf]. }
+  pose proof (md_unpack_total _ (wf_bytes_firstn n _ WL)) as T.
+  destruct (md_unpack (firstn n (md_layout c q o))) as [p|e] eqn:U; [exfalso|exists e; split; [reflexivity|exact T]].
+  pose proof (md_fdir_valid c q o V) as FV.
+  set (f := fdir_of (conf_set_dir c 0) DT_METADATA (md_dlen c q o - 1)) in *.
+  pose proof (md_layout_len c q o V) as LL.
+  set (tl := md_body c q o ++ crc_tail c (hdr_layout (md_header c q o) ++ [D_METADATA] ++ md_body c q o)).
+  assert (E : md_layout c q o = fdir_layout f ++ tl).
+  { unfold md_layout, tl. rewrite with_crc_split, md_pre_eq, <- app_assoc. reflexivity. }
+  assert (Wtl : wf_bytes tl) by (rewrite E in WL; apply wf_bytes_app in WL; apply WL).
+  pose proof (fdir_layout_len f FV) as HL.
+  unfold md_unpack in U. destruct md_empty_ok as (e0 & Ee & _). rewrite Ee in U. cbn [bind] in U.
+  destruct (Nat.lt_ge_cases n (length (fdir_layout f))) as [Sh | Lg].
+  - rewrite E in U. destruct (fdir_unpack_short_prefix f n _ FV Wtl Sh) as (e & Ue & _).
+    rewrite Ue in U. discriminate U.
+  - assert (Fn : firstn n (md_layout c q o) = fdir_layout f ++ firstn (n - length (fdir_layout f)) tl).
+    { rewrite E at 1. rewrite firstn_app. rewrite firstn_all2 by lia. reflexivity. }
+    rewrite Fn in U. rewrite fdir_unpack_layout in U; [|exact FV|apply wf_bytes_firstn; exact Wtl].
+    cbn [bind] in U. rewrite hdr_verify_short in U; [discriminate U|].
+    rewrite <- Fn. unfold len at 1. rewrite firstn_length.
+    unfold hdr_packet_len, f, fdir_of. cbn [fd_hdr h_dlen]. unfold len in LL.
+    unfold hdr_header_len, md_header in LL. cbn [h_conf] in LL. unfold hdr_header_len. cbn [h_conf]. lia.
+Qed.
+
+Theorem md_accept_needs_crc0 d p : wf_bytes d -> md_unpack d = Ok p ->
+  exists h, hdr_unpack d = Ok h /\
+    (cf_crc (h_conf h) = 1 -> crc16 (firstn (Z.to_nat (hdr_packet_len h)) d) = 0) /\
+    hdr_packet_len h <= len d.
+Proof.
+  intros W U. unfold md_unpack in U. destruct md_empty_ok as (e0 & Ee & _). rewrite Ee in U. cbn [bind] in U.
+  destruct (fdir_unpack d) as [f|e] eqn:Uf; [|discriminate U]. cbn [bind] in U.
+  destruct (fdir_unpack_inv d f W Uf) as (FV & Uh & _).
+  destruct (hdr_valid_packet_len _ (proj1 FV)) as (_ & Hp).
+  assert (P2 : 2 <= hdr_packet_len (fd_hdr f)) by lia.
+  destruct (hdr_verify_length_and_checksum (fd_hdr f) d) as [pl|e] eqn:Ve; [|discriminate U].
+  destruct (hdr_verify_accept _ _ _ P2 Ve) as (-> & Lpl & Cr).
+  exists (fd_hdr f). split; [exact Uh|]. split; [exact Cr|exact Lpl].
+Qed.
